@@ -296,3 +296,18 @@ def run(tier, seed, scale, verif):
     return {"evaluations": evaluations, "distinct_nontrivial": len(shapes), "samples": samples, "findings": list(merged.values()),
             "notes": ["documents=%d positions probed=%d diagnostics=%d lints=%d edits=%d" % (len(docs), evaluations, counters["diagnostics"], counters["lints"], counters["edits"])],
             "inconclusive": inconclusive[:5], "counters": counters, "wall_s": time.time() - t0}
+
+
+def run_for_c03(tier, seed, scale, verif):
+    """C03 as an editor sees it: the published range of a lint and the text edit of each suggestion are what the
+    server makes of `lint.span` and `Suggestion`. Same run as C08 (other seed stream), findings about ranges and
+    edits are reported under C03."""
+    r = run(tier, seed + 7001, scale * 0.6, verif)
+    out = []
+    for f in r["findings"]:
+        if f["sig"].startswith(("range.", "edit.", "span.")):
+            f = dict(f, prop="C03", sig="ls." + f["sig"])
+            out.append(f)
+    r["findings"] = out
+    r["notes"] = ["through harper-ls: " + n for n in r.get("notes", [])]
+    return r
